@@ -16,7 +16,7 @@ from vt.ref import flowvpls, wire
 LOCAL_ADDR4 = '127.0.0.1'
 EXTRA_FAMILIES = [(1, 133), (2, 133), (1, 134), (2, 134), (25, 65)]
 HANDLED_BY_CALLBACK = (ValueError, IndexError)   # what every announce_* callback answers `error` for by name
-HANG_LIMIT_S = float(os.environ.get('C18_HANG_LIMIT_S', '4'))   # the slowest legitimate parse (1100 list members) takes ~0.5 s
+HANG_LIMIT_S = float(os.environ.get('C18_HANG_LIMIT_S', '5'))   # the slowest legitimate parse (1100 list members) takes ~0.5 s
 
 
 class Hang(BaseException):
@@ -324,11 +324,13 @@ def cb_command(text):
 
 def run_cb(g, text):
     """the real API.process -> dispatch -> announce_* callback; -> dict(status, msg, routes)"""
-    reset_state()
     api = get_api()
-    reactor = StubReactor()
-    api.reactor = reactor
+    box = {}
+
     def drive():
+        reset_state()
+        reactor = box['reactor'] = StubReactor()
+        api.reactor = reactor
         api.process(reactor, 'svc', cb_command(text))
         for coro in reactor.asynchronous.queue:
             try:
@@ -341,11 +343,10 @@ def run_cb(g, text):
     except Hang:
         return dict(status='hang', msg=f'no answer after {4 * HANG_LIMIT_S:g} s of CPU in two attempts', routes=None)
     except Exception as e:  # noqa: BLE001
-        for coro in reactor.asynchronous.queue:
-            coro.close()
         return dict(status='exception', etype=type(e).__name__, msg='escaped the callback: ' + _exc_text(e), routes=None)
     finally:
         api.reactor = None
+    reactor = box['reactor']
     rep = reactor.processes.replies
     kinds = [k for k, _ in rep]
     if kinds == ['done']:
@@ -768,11 +769,7 @@ def run_case(case, sess):
     else:
         out = run_api(g, api_text)
         text = api_text
-    if path == 'cb':
-        # the reply only; encoding is done on the api path with the same objects
-        lab, viols = judge(g, path, case['form'], devs, dict(out, routes=None) if out['status'] != 'accepted' else out, [] if out['status'] == 'accepted' else sess)
-    else:
-        lab, viols = judge(g, path, case['form'], devs, out, sess)
+    lab, viols = judge(g, path, case['form'], devs, out, sess)
     return lab, viols, text
 
 
